@@ -9,7 +9,7 @@ VERIF = '/verif'
 INC = os.path.join(VERIF, 'seeded_incoming')
 OUT = os.path.join(VERIF, 'seeded')
 WT = '/tmp/seedw'
-PKG = {'searcher': 'grep-searcher', 'printer': 'grep-printer', 'regex': 'grep-regex', 'matcher': 'grep-matcher', 'core': 'ripgrep'}
+PKG = {'globset': 'globset', 'cli': 'grep-cli', 'ignore': 'ignore', 'searcher': 'grep-searcher', 'printer': 'grep-printer', 'regex': 'grep-regex', 'matcher': 'grep-matcher', 'core': 'ripgrep'}
 ENV = dict(os.environ, CARGO_TARGET_DIR='/tmp/seedw_target', TMPDIR='/tmp/seedw_tmp', CARGO_NET_OFFLINE='true')
 
 def sh(cmd, cwd=WT, timeout=3600):
